@@ -1,6 +1,10 @@
+CONSTANTS
+MaxPre = 3
+Alphabet = {0, 1, 255}
 INIT Init
 NEXT Next
 INVARIANT DecodesToRightScript
 INVARIANT NetworkTagIsOwn
 INVARIANT KindsAreSeparated
 INVARIANT TemplateShapes
+INVARIANT LeadingOnes
